@@ -1,3 +1,6 @@
+mod adversary;
+mod c04;
+mod c05;
 mod c11;
 mod e1;
 mod explore;
@@ -39,10 +42,13 @@ fn main() {
                 "C01" => c01(tier),
                 "C02" => c02(tier),
                 "C03" => c03(tier),
+                "C04" => c04check(tier),
+                "C05" => c05check(tier),
                 "C07" => c07(tier),
                 "C08" => c08(tier),
                 "C11" => c11check(tier),
                 "C14" => c14(tier),
+                "C16" => c16check(tier),
                 "C20" => c20(tier),
                 _ => usage(),
             }
@@ -253,5 +259,104 @@ fn c03(tier: &str) -> i32 {
         jobs.push(j);
     }
     run_e1(jobs, &|cx, rep, _| props_e1::check_c03(cx, rep), &mut rep);
+    rep.finish()
+}
+
+fn c04check(tier: &str) -> i32 {
+    let mut rep = Report::new("C04", tier, "model_checking");
+    rep.rule = "full product: sender role {member, ex-member with stale state, outsider} x rumor pubkey {own, victim, outsider} x pre-set id {absent, correct, victim's message, own message, message of another group, arbitrary} x kind {9,1,5,445} x tags x created_at {0, now, far future}; every captured ciphertext re-wrapped under a fresh id with the same / another group's h tag in both orders; each delivered to the receiver in every base state; distinct = distinct (case, result)".into();
+    c04::run(&mut rep, lab::Bk::Memory, tier != "quick");
+    if tier != "quick" {
+        c04::run(&mut rep, lab::Bk::Sqlite, true);
+    }
+    rep.finish()
+}
+
+fn c05check(tier: &str) -> i32 {
+    let mut rep = Report::new("C05", tier, "model_checking");
+    rep.rule = "receiver half: sender role {admin, non-admin, removed member with stale state} x commit content built directly with the OpenMLS commit builder {empty, path-only self-update, add, remove, rename, admin-set change, relay change, update path with another identity, by-reference commit of queued proposals, mixed} x foreign proposal queued or not x receiver role x base state, verdict and delta compared with what the scenario defines; stand-alone proposals of every kind; sender half: every foreign proposal kind queued at an honest admin x every admin operation; distinct = distinct (case, result)".into();
+    c05::run(&mut rep, lab::Bk::Memory, tier != "quick");
+    if tier != "quick" {
+        c05::run(&mut rep, lab::Bk::Sqlite, true);
+    }
+    rep.finish()
+}
+
+/// adversarial invitations added to a built world: every original invitation replayed under a new wrapper id,
+/// and for the silent member Z an invitation to an attacker-made group that reuses the MLS group id
+fn c16_hook(w: &mut scenario::World) {
+    let n = w.welcomes.len();
+    for i in 0..n {
+        let (_, r, who) = w.welcomes[i].clone();
+        let wid = nostr::EventId::from_slice(&scenario::sha2_32(format!("replayed-wrapper-{i}").as_bytes())).unwrap();
+        w.welcomes.push((wid, r, who));
+        w.welcome_nodes.push(w.welcome_nodes[i].clone());
+        w.welcome_kinds.push("replay-new-wrapper".into());
+    }
+    if let (Some(o), Some(kp)) = (w.initial.get("O"), w.key_packages.get("Z")) {
+        if let Ok(r) = adversary::forged_group_welcome(o, &w.gid, kp, "forged", [0x66; 32]) {
+            let wid = nostr::EventId::from_slice(&scenario::sha2_32(b"forged-wrapper")).unwrap();
+            w.welcomes.push((wid, r, "Z".into()));
+            w.welcome_nodes.push(vec![usize::MAX]);
+            w.welcome_kinds.push("forged-same-mls-group-id".into());
+        }
+        // an unrelated attacker group X, invited twice; the second invitation claims the Nostr group id of the real group
+        let xid = mdk_storage_traits::GroupId::from_slice(&[0x58; 16]);
+        let real_h = w.initial.get("Z").and_then(|z| adversary::nostr_group_id_of(z, &w.gid));
+        let o1 = o.fork();
+        if let (Ok(r1), Some(h)) = (adversary::forged_group_welcome(&o1, &xid, kp, "x-first", [0x67; 32]), real_h) {
+            let wid = nostr::EventId::from_slice(&scenario::sha2_32(b"forged-x1")).unwrap();
+            w.welcomes.push((wid, r1, "Z".into()));
+            w.welcome_nodes.push(vec![usize::MAX]);
+            w.welcome_kinds.push("forged-unrelated-group".into());
+            // a second, different group under the same MLS group id needs its own attacker state
+            let o2 = o.fork();
+            if let Ok(r2) = adversary::forged_group_welcome(&o2, &xid, kp, "x-second", h) {
+                let wid = nostr::EventId::from_slice(&scenario::sha2_32(b"forged-x2")).unwrap();
+                w.welcomes.push((wid, r2, "Z".into()));
+                w.welcome_nodes.push(vec![usize::MAX]);
+                w.welcome_kinds.push("forged-unrelated-group-claiming-our-nostr-id".into());
+            }
+        }
+    }
+}
+
+fn c16check(tier: &str) -> i32 {
+    let mut rep = Report::new("C16", tier, "model_checking");
+    rep.rule = "invitation kinds {original, replayed under a new wrapper id, attacker-made group reusing the MLS group id} x recipient {not a member, pending, active, inactive/evicted} x every position in the group's history (process/accept/decline enabled in every state of the recipient's graph); distinct = distinct (action, kind, own, recipient state, result, resulting state)".into();
+    let m = ["A", "B", "C", "Z"];
+    let ad = ["A", "B"];
+    use scenario::{ActKind, act};
+    let msg = |a: &str, c: &str| act(a, ActKind::Msg(c.into()), 5);
+    let mut v: Vec<scenario::Scenario> = Vec::new();
+    v.push(families::base("invite", &m, &ad, &["D", "O"], vec![msg("Z", "before-join"), act("A", ActKind::Add("D".into()), 10).then(vec![msg("Z", "after-join"), act("A", ActKind::Rename("later".into()), 20)])]));
+    v.push(families::base("reinvite", &m, &ad, &["O"], vec![act("A", ActKind::Remove("C".into()), 10).then(vec![act("A", ActKind::Add("C".into()), 20).then(vec![msg("Z", "back-in")])])]));
+    if tier != "quick" {
+        v.push(families::base("evict-then-traffic", &m, &ad, &["O"], vec![act("A", ActKind::Remove("C".into()), 10).then(vec![msg("Z", "after-removal")])]));
+        v.push(families::base("invite-race", &m, &ad, &["D", "O"], vec![act("A", ActKind::Add("D".into()), 10).then(vec![msg("Z", "on-winner")]), act("B", ActKind::Rename("loser".into()), 20)]));
+    }
+    let mut jobs: Vec<E1Job> = Vec::new();
+    for sc in v {
+        let mut members: Vec<String> = if sc.name == "reinvite" && tier == "quick" { vec![] } else { vec!["Z".into()] };
+        for x in ["D", "C"] {
+            if sc.outsiders.iter().any(|o| o == x) || sc.name.contains("evict") || sc.name.contains("reinvite") {
+                members.push(x.into());
+            }
+        }
+        let mut j = E1Job::new(sc);
+        j.regimes = vec![explore::Regime::Causal];
+        j.members = Some(members);
+        j.with_welcomes = true;
+        j.welcome_consent = if tier == "quick" { 1 } else { 2 };
+        j.with_local_ops = false;
+        j.prejoin = true;
+        j.world_hook = Some(c16_hook);
+        j.max_states = if tier == "quick" { 3000 } else { 40000 };
+        if tier != "quick" {
+            jobs.push(j.clone().backend(lab::Bk::Sqlite));
+        }
+        jobs.push(j);
+    }
+    run_e1(jobs, &|cx, rep, _| props_e1::check_c16(cx, rep), &mut rep);
     rep.finish()
 }
